@@ -107,6 +107,12 @@ def two_bloc_params(tier):
             r = dict(q)
             r["reverse_bloc_dicts"] = True
             extra.append(r)
+    # slate_to_candidates listing the blocs in the opposite order to bloc_voter_prop
+    for k, q in enumerate(out):
+        if tier != "quick" or k % 3 == 1:
+            r = dict(q)
+            r["reverse_slate_dict"] = True
+            extra.append(r)
     return out + extra
 
 
@@ -165,14 +171,17 @@ def build_generator(model, p, **extra):
         return bg.short_name_PlackettLuce(ballot_length=extra["ballot_length"], candidates=all_cands(p), **common)
     if model == "name_Cumulative":
         return bg.name_Cumulative(num_votes=extra["num_votes"], candidates=all_cands(p), **common)
+    s2c = {k: list(v) for k, v in p["slates"].items()}
+    if p.get("reverse_slate_dict"):
+        s2c = dict(reversed(list(s2c.items())))
     if model in ("slate_PlackettLuce",):
-        return bg.slate_PlackettLuce(slate_to_candidates={k: list(v) for k, v in p["slates"].items()}, **common)
+        return bg.slate_PlackettLuce(slate_to_candidates=s2c, **common)
     if model in ("slate_BradleyTerry", "slate_BradleyTerry_MCMC"):
-        return bg.slate_BradleyTerry(slate_to_candidates={k: list(v) for k, v in p["slates"].items()}, **common)
+        return bg.slate_BradleyTerry(slate_to_candidates=s2c, **common)
     if model == "AlternatingCrossover":
-        return bg.AlternatingCrossover(slate_to_candidates={k: list(v) for k, v in p["slates"].items()}, **common)
+        return bg.AlternatingCrossover(slate_to_candidates=s2c, **common)
     if model == "CambridgeSampler":
-        return bg.CambridgeSampler(slate_to_candidates={k: list(v) for k, v in p["slates"].items()}, path=extra["path"], **common)
+        return bg.CambridgeSampler(slate_to_candidates=s2c, path=extra["path"], **common)
     raise ValueError(model)
 
 
